@@ -15,7 +15,8 @@ ASSUMPTIONS = [
     "Lean side (Properties/C02.lean): WF P (unique task ids, a task lists a product once, module files are not products) and BodiesTotal P "
     "(a body that returns has written all its products) are hypotheses; the project is static along a History (edits = arbitrary changes of "
     "file contents incl. module files and products, loss of the state table); add/remove/rewire-task edits are covered by the differential "
-    "campaign only",
+    "campaign only for the static History; Properties/C02.lean additionally proves C02_history_structural over HistoryP (add / remove / rewire-task edits) "
+    "under DeclChangeTouchesSrc (a declaration change changes the module content) — true of the generated projects by construction, false for F11b",
     "generated projects also contain: input nodes that are symbolic links edited through their target (model: state = content the spelling denotes), "
     "a DirectoryNode product declared before / after the ordinary file products of some tasks (its files are implementation-only and never edited; "
     "model replay and oracle cover the ordinary products), a constant hashed PythonNode dependency; successive builds of one history run under different PYTHONHASHSEEDs",
